@@ -45,7 +45,7 @@ func (s *scenario) negativeSizes(r *vk.Run, rng *vk.Rand, midToken string) {
 			tokClass = "with-valid-token"
 		}
 		judge := func(call callFn, via string) (flagged bool) {
-			w := s.walk(call, p.size, nil, p.token, 1)
+			w := s.walk(call, []int32{p.size}, nil, p.token, 1)
 			r.Eval(1)
 			r.Count("neg-probes", 1)
 			if s.n > 0 {
@@ -135,7 +135,8 @@ func (s *scenario) hostileList(rng *vk.Rand, midToken string) []hostile {
 			hostile{"beyond-count", strconv.Itoa(n + rng.Range(2, 500))},
 			hostile{"beyond-count", []string{"2147483647", "2147483648", "1099511627776", "9223372036854775807"}[rng.Intn(4)]},
 			hostile{"negative", strconv.Itoa(-rng.Range(1, n+5))},
-			hostile{"negative", []string{"-1", "-2147483648", "-9223372036854775808"}[rng.Intn(3)]},
+			hostile{"negative", []string{"-1", "-2147483648", "-9223372036854775807"}[rng.Intn(3)]},
+			hostile{"int-min", "-9223372036854775808"},
 			hostile{"plus-prefixed", "+" + strconv.Itoa(rng.Range(0, n))},
 			hostile{"zero", []string{"0", "-0", "00"}[rng.Intn(3)]},
 			hostile{"in-range-unissued", strconv.Itoa(rng.Range(1, n))},
@@ -219,7 +220,7 @@ func (s *scenario) hostileTokens(r *vk.Run, rng *vk.Rand, midToken string) {
 			size = []int32{0, 50, 400, 1000, 5000}[rng.Intn(5)]
 		}
 		judge := func(call callFn, via string) (flagged bool) {
-			w := s.walk(call, size, nil, h.token, s.n+2)
+			w := s.walk(call, []int32{size}, nil, h.token, s.n+2)
 			r.Eval(1)
 			if s.n > 0 {
 				r.Distinct(fmt.Sprintf("tok|%s|%s|%q|n=%d|size=%d%s", t.rpc, h.class, h.token, s.n, size, via))
